@@ -53,7 +53,7 @@ from mashumaro.core.meta.helpers import (
     is_literal,
     is_local_type_name,
     is_named_tuple,
-    is_optional,
+    is_nullable,
     is_type_var_any,
     resolve_type_params,
     substitute_type_params,
@@ -1262,7 +1262,7 @@ class CodeBuilder:
         could_be_none = (
             ftype in (typing.Any, type(None), None)
             or is_type_var_any(self.get_real_type(fname, ftype))
-            or is_optional(ftype, self.get_field_resolved_type_params(fname))
+            or is_nullable(ftype, self.get_field_resolved_type_params(fname))
             or self.get_field_default(fname) is None
         )
         value = "value" if could_be_none or force_value else f"self.{fname}"
@@ -1416,7 +1416,7 @@ class FieldUnpackerCodeBlockBuilder:
         could_be_none = (
             ftype in (typing.Any, type(None), None)
             or is_type_var_any(self.parent.get_real_type(fname, ftype))
-            or is_optional(
+            or is_nullable(
                 ftype, self.parent.get_field_resolved_type_params(fname)
             )
             or default is None
